@@ -98,7 +98,7 @@ def run_property(prop, tier, seed, replay=None, shards=None, quiet=False):
     lines = []
     for key, vs in sorted(listed.items()):
         lines.append(f"KNOWN-FINDING: property={prop} key={key} {kn[key]} ({len(vs)} occurrence(s) this run)")
-    rdir = os.path.join(env.VERIF, "replays", prop)
+    rdir = os.path.join(env.VERIF, "replays", prop) if not os.environ.get("VF_NO_EVIDENCE") else os.path.join(env.scratch_base(), "vf-replays-mut", prop)
     for key, vs in sorted(unlisted.items()):
         v = vs[0]
         os.makedirs(rdir, exist_ok=True)
@@ -122,7 +122,7 @@ def run_property(prop, tier, seed, replay=None, shards=None, quiet=False):
             inconclusive.append("nothing-evaluated")
 
     wall = time.monotonic() - t0
-    if not replay:
+    if not replay and not os.environ.get("VF_NO_EVIDENCE"):
         cov = {
             "evaluations": merged["evaluations"],
             "distinct_nontrivial": len(merged["classes"]),
